@@ -41,7 +41,7 @@ class Num:
         return int(a)
 
 
-FOREIGN = {1: "a", 2: None}
+FOREIGN = {1: "a", 2: None, 3: float("nan")}      # a str, None, and NaN: none of them can be ordered against numbers
 
 
 class SetAdapter:
@@ -231,7 +231,7 @@ def set_ops(rnd, maxv, length):
         if n in ("add", "discard", "remove", "contains"):
             ops.append({"op": n, "x": rnd.randint(0, maxv)})
         elif n in ("probe", "probe_remove"):
-            ops.append({"op": n, "kind": rnd.choice([1, 2])})
+            ops.append({"op": n, "kind": rnd.choice([1, 2, 3])})
         elif n in ("ior", "isub", "iand", "eq"):
             ops.append({"op": n, "init": [rnd.randint(0, maxv) for _ in range(rnd.randint(0, 4))]})
         else:
@@ -257,7 +257,7 @@ def map_ops(rnd, maxv, length):
         elif n in ("update", "eq"):
             ops.append({"op": n, "ps": [[rnd.randint(0, maxv), rnd.choice([10, 20, 30])] for _ in range(rnd.randint(0, 3))]})
         elif n.startswith("probe"):
-            ops.append({"op": n, "kind": rnd.choice([1, 2])})
+            ops.append({"op": n, "kind": rnd.choice([1, 2, 3])})
         else:
             ops.append({"op": n})
     return ops
